@@ -3,7 +3,7 @@ from __future__ import annotations
 
 import ast
 
-from ..astu import U, dotted, walk_shallow, fold, NotLiteral, call_name, calls_in, kwarg, names_in, param_names
+from ..astu import U, has, dotted, walk_shallow, fold, NotLiteral, call_name, calls_in, kwarg, names_in, param_names
 from ..cfg import build, find_guards
 from ..core import AnalysisError, Mutant, Rule, Twin
 from ..idioms import subscript_stores, is_not_in_test, for_loops, target_names
@@ -369,6 +369,37 @@ def r6_layout(ctx):
               "reaction string is not '{}{}%s{}%s{}{}' % around_arrow formatted with the parts in order", node=rs)
 
 
+def r7_inactive_predicate(ctx):
+    """a term is an inactive group iff its *leading* bracket is closed by its *last* character"""
+    m = ctx.mod(PARSING)
+    tr = ctx.func(PARSING, "to_reaction")
+    preds = set()
+    for c, l in _filters(tr):
+        for t in l.generators[0].ifs:
+            for n in ast.walk(t):
+                if isinstance(n, ast.Call) and isinstance(n.func, ast.Name):
+                    preds.add(n.func.id)
+    preds = {p for p in preds if m.has_func(p)}
+    if not preds:
+        # inline filters: R2 already demands complementarity; the leading-bracket rule cannot be checked structurally
+        ctx.holds(PARSING + ":to_reaction", "inline-filters")
+        return
+    for pn in sorted(preds):
+        fn = ctx.func(PARSING, pn)
+        a = PARSING + ":" + pn
+        arg = fn.args.args[0].arg
+        ctx.check(has(fn, "if not (%s.startswith('(') and %s.endswith(')')): return False" % (arg, arg)), a, "needs-both-brackets", "a term that does not both start with '(' and end with ')' is not an inactive group", node=fn)
+        loops = [lp for lp in for_loops(fn) if has(lp.iter, "enumerate(%s)" % arg)]
+        ok = len(loops) == 1
+        if ok:
+            lp = loops[0]
+            iv, cv = target_names(lp.target)
+            ok = has(lp, "if %s == '(': depth += 1 elif %s == ')': depth -= 1" % (cv, cv), scope=fn) and has(lp, "if depth == 0: return %s == len(%s) - 1" % (iv, arg), scope=fn)
+        ctx.check(ok, a, "leading-bracket-closes-at-end", "the predicate must track the bracket depth and answer, at the first return to depth 0, whether that position is the last character "
+                  "(balanced brackets alone also accept keys such as '(NH4)3(PO4)')", node=fn)
+        ctx.check(has(fn, "depth = 0"), a, "depth-starts-at-0", "bracket depth must start at 0", node=fn)
+
+
 RULES = [
     Rule("C12-R1", r1_tokens, 10, "writer/reader token agreement (arrows, term/field/coefficient/line separators)"),
     Rule("C12-R2", r2_partition, 6, "term classification is a partition; sides reach the constructor in written order"),
@@ -376,6 +407,7 @@ RULES = [
     Rule("C12-R4", r4_attrs, 16, "_all_attr/_cmp_attr vs constructor, __eq__, __hash__, copy"),
     Rule("C12-R5", r5_name_field, 1, "third printed field parses back"),
     Rule("C12-R6", r6_layout, 6, "printer lays out sides/coefficients in stored order"),
+    Rule("C12-R7", r7_inactive_predicate, 1, "inactive-group predicate: leading bracket closed by the last character"),
 ]
 
 MUTANTS = [
@@ -399,6 +431,8 @@ MUTANTS = [
     Mutant("printer-sides-crossed", [(STR, "for d in (rxn.reac, rxn.prod, rxn.inact_reac, rxn.inact_prod)", "for d in (rxn.prod, rxn.reac, rxn.inact_reac, rxn.inact_prod)")], "C12-R6", "sides-order"),
     Mutant("printer-omits-coeff-2", [(STR, "if v != 1 else nullstr", "if v > 2 else nullstr")], "C12-R6", "coefficient"),
 ]
+
+MUTANTS.append(Mutant("inactive-predicate-balanced-only", [(PARSING, "            if depth == 0:\n                return idx == len(term) - 1\n    return False", "            if depth < 0:\n                return False\n    return depth == 0")], "C12-R7", "leading-bracket"))
 
 TWINS = [
     Twin("param-sep-no-space", [(PRN, 'Reaction_param_separator="; ",', 'Reaction_param_separator=";",')]),
